@@ -82,6 +82,10 @@ pub struct Cfg {
     /// the history contains an explicit OSweep step (lookups between mutations are then as rare
     /// as the history makes them, so state cached by lookups is not refreshed behind its back)
     pub sweep_mode: u8,
+    /// expiring-key world: 0 = KeyExp*<SimKey, i32, i64> (32-bit clock), 1 = the narrow
+    /// instantiation KeyExp*<NKey, u8, u32> (64-bit key field, 8-bit clock whose maximum 255 is
+    /// within reach of every run, 32-bit values)
+    pub key_ty: u8,
 }
 
 impl Cfg {
@@ -99,6 +103,7 @@ impl Cfg {
             .set("seg_hi", J::Int(self.seg_hi))
             .set("t0", J::i(self.t0))
             .set("sweep_mode", J::i(self.sweep_mode as i64))
+            .set("key_ty", J::i(self.key_ty as i64))
     }
     pub fn from_json(j: &J) -> Result<Cfg, String> {
         let g = |k: &str| j.get(k).and_then(|v| v.as_i64()).ok_or(format!("cfg.{} missing", k));
@@ -115,6 +120,7 @@ impl Cfg {
             seg_hi: g("seg_hi")?,
             t0: g("t0")? as i32,
             sweep_mode: j.get("sweep_mode").and_then(|v| v.as_i64()).unwrap_or(0) as u8,
+            key_ty: j.get("key_ty").and_then(|v| v.as_i64()).unwrap_or(0) as u8,
         })
     }
     #[inline]
